@@ -8,6 +8,7 @@ rows, cached ASTs, transaction) surround every classify/evaluate operation.  See
 import os
 import re
 import shutil
+import sys
 
 from .. import proc, util
 
@@ -102,6 +103,37 @@ tags: ordered
 ''',
     'f.csv': '''Pattern,Merchant,Category,Subcategory
 NETFLIX,Netflix Two,Bills,Net
+''',
+    # variables that can be evaluated for some transactions only (a captured column one source has and another lacks,
+    # supplemental rows that are passed on one call and not on the next), used positively and negatively
+    'k.rules': '''is_pos = field.kind == "POS"
+is_ach = field.kind == "ACH"
+has_order = len([r for r in orders if r.amount == txn.amount]) > 0
+
+[Point Of Sale]
+match: is_pos
+category: Shopping
+subcategory: Terminal
+
+[Wire]
+match: is_ach or has_order
+category: Transfers
+subcategory: Wire
+tags: wire
+
+[Not Pos]
+match: not is_pos
+tags: remote
+
+[Kind]
+let: k = field.kind
+match: k == "CARD" or k == "ACH"
+tags: kinded, {k}
+
+[Coffee]
+match: contains("COFFEE")
+category: Food
+subcategory: Coffee
 ''',
     # an uncompilable pattern in the middle: it must be skipped on every classification alike
     'h.csv': '''Pattern,Merchant,Category,Subcategory,Tags
@@ -203,7 +235,7 @@ VIEWS_TEXTS = [
     '[Food]\nfilter: category == "Housing"\n\n[Fun]\nfilter: "fun" in tags\n',
     '[Broken]\nfilter: total >\n',
 ]
-ENGINE_TEXTS = [RULE_FILES['a.rules'], RULE_FILES['b.rules'], RULE_FILES['e.rules'],
+ENGINE_TEXTS = [RULE_FILES['a.rules'], RULE_FILES['b.rules'], RULE_FILES['e.rules'], RULE_FILES['k.rules'],
                 '[Only]\nmatch: regex("\\\\S+ r1")\ncategory: One\n', '[Only]\nmatch: regex("\\\\s+ r1")\ncategory: Two\n']
 
 
@@ -249,6 +281,12 @@ def gen_general_text(rng):
     out = []
     if rng.random() < 0.3:
         out.append('is_large = amount > %d\n' % rng.choice([10, 100]))
+    partial = []
+    if rng.random() < 0.3:
+        partial = rng.sample(['is_pos', 'is_ach', 'has_order'], rng.randint(1, 2))
+        for v in partial:
+            out.append({'is_pos': 'is_pos = field.kind == "POS"\n', 'is_ach': 'is_ach = field.kind == "ACH"\n',
+                        'has_order': 'has_order = len([r for r in orders if r.amount == txn.amount]) > 0\n'}[v])
     if rng.random() < 0.25:
         out.append(rng.choice(['field.ref = extract("r(\\\\d+)")\n', 'field.kind = uppercase(description)\n',
                                'field.ref = extract("(COFFEE)") if contains("COFFEE") else field.ref\n']))
@@ -278,6 +316,9 @@ def gen_general_text(rng):
                                      'field: when = [r.date for r in orders]']))
         if rng.random() < 0.1:
             lines[1] = 'match: (%s) or exists(field.ref)' % lines[1][len('match: '):]
+        if partial and rng.random() < 0.5:
+            v = rng.choice(partial)
+            lines[1] = 'match: ' + rng.choice([v, 'not ' + v, '%s or amount > 500' % v, '%s and amount > 1' % v])
         out.append('\n'.join(lines) + '\n')
     return '\n'.join(out)
 
@@ -354,12 +395,61 @@ def gen_expr_history(rng):
     return ops
 
 
+_CARD = 'Date,Description,Amount\n01/05/2025,NETFLIX r1,15.99\n01/06/2025,COFFEE SHOP r2,4.50\n02/07/2025,UBER TRIP r3,23.10\n02/09/2025,SQ *COFFEE r4,120.00\n'
+_SRC = 'data_sources:\n  - name: Card\n    file: data/card.csv\n    format: "{date:%m/%d/%Y},{description},{amount}"\n'
+CMD_RULES = [
+    '[Netflix]\nmatch: contains("NETFLIX")\ncategory: Subscriptions\nsubcategory: Streaming\ntags: income\n\n[Coffee]\nmatch: contains("COFFEE")\n'
+    'category: Food\nsubcategory: Coffee\n',
+    'is_large = amount > 100\nfield.description = regex_replace(field.description, "^SQ \\\\*", "")\n\n[Big]\nmatch: is_large\ncategory: Big\nsubcategory: Spend\n'
+    'priority: 90\n\n[Coffee]\nmatch: contains("COFFEE")\ncategory: Drinks\nsubcategory: Hot\ntags: fun\n\n[Rides]\nmatch: contains("UBER")\n'
+    'category: Transport\nsubcategory: Rideshare\n',
+    '[Everything]\nmatch: amount > 1\ncategory: Misc\nsubcategory: All\ntags: transfer\n',
+]
+CMD_BUDGETS = {
+    'b_rules': {'config/settings.yaml': 'year: 2025\n' + _SRC + 'merchants_file: config/merchants.rules\n',
+                'config/merchants.rules': CMD_RULES[0], 'data/card.csv': _CARD},
+    'b_rules2': {'config/settings.yaml': 'year: 2025\n' + _SRC + 'merchants_file: config/merchants.rules\nrule_mode: most_specific\n',
+                 'config/merchants.rules': CMD_RULES[1], 'data/card.csv': _CARD},
+    'b_none': {'config/settings.yaml': 'year: 2025\n' + _SRC, 'data/card.csv': _CARD},
+    'b_csv': {'config/settings.yaml': 'year: 2025\n' + _SRC,
+              'config/merchant_categories.csv': 'Pattern,Merchant,Category,Subcategory\nNETFLIX,Netflix,Fun,TV\nUBER,Uber,Travel,Taxi\n', 'data/card.csv': _CARD},
+    'b_missing': {'config/settings.yaml': 'year: 2025\n' + _SRC + 'merchants_file: config/nosuch.rules\n', 'data/card.csv': _CARD},
+    'b_views': {'config/settings.yaml': 'year: 2025\n' + _SRC + 'merchants_file: config/merchants.rules\nviews_file: config/views.rules\n',
+                'config/merchants.rules': CMD_RULES[0].replace('tags: income\n', ''), 'config/views.rules': '[Food]\nfilter: category == "Food"\n\n[Large]\nfilter: total > 10\n',
+                'data/card.csv': _CARD},
+}
+CMD_ARGV = [['up', '{cfg}', '--format', 'json'], ['up', '{cfg}', '--format', 'json', '-v'], ['up', '{cfg}', '--format', 'summary'],
+            ['explain', '{cfg}'], ['explain', 'Netflix', '{cfg}'], ['explain', 'COFFEE SHOP', '{cfg}', '--amount', '4.5'],
+            ['discover', '{cfg}', '--format', 'json'], ['run', '{cfg}', '--format', 'markdown']]
+
+
+def gen_cmd_history(rng):
+    """Whole commands, several of them in one long-lived process (a test runner, a watcher, a library user calling main()),
+    on different budgets that share descriptions: what a command reports must not depend on the commands before it."""
+    files = {}
+    for b, fs in CMD_BUDGETS.items():
+        for r, t in fs.items():
+            files['%s/%s' % (b, r)] = t
+    ops = [{'op': 'FILES', 'files': files}]
+    names = sorted(CMD_BUDGETS)
+    for _ in range(rng.randint(3, 8)):
+        if rng.random() < 0.15:
+            b = rng.choice(['b_rules', 'b_rules2', 'b_views'])
+            ops.append({'op': 'EDIT', 'path': b + '/config/merchants.rules', 'text': rng.choice(CMD_RULES)})
+            ops.append({'op': 'CMD', 'budget': b, 'argv': rng.choice(CMD_ARGV)})
+            continue
+        ops.append({'op': 'CMD', 'budget': rng.choice(names), 'argv': rng.choice(CMD_ARGV[:3] if rng.random() < 0.6 else CMD_ARGV)})
+    return ops
+
+
 def gen_history(rng, tier):
     r0 = rng.random()
     if r0 < 0.35:
         return gen_focus_history(rng)
     if r0 < 0.55:
         return gen_expr_history(rng)
+    if r0 < 0.67:
+        return gen_cmd_history(rng)
     n = rng.randint(5, 40)
     ops = []
     extra = {'g1.rules': gen_rules_text(rng), 'g2.rules': gen_rules_text(rng), 'g3.rules': gen_rules_text(rng), 'g4.csv': gen_csv_text(rng)}
@@ -587,6 +677,8 @@ def do_op(st, op, ch, root):
             return _exc(e)
         st.rules, st.transforms = rules, transforms
         return ['loaded', _canon_rules(rules), _canon_val(transforms)]
+    if k == 'CMD':
+        return run_main([a.replace('{cfg}', os.path.join(root, op['budget'], 'config')) for a in op['argv']], root)
     rows = st.rows if op.get('rows') else None
     try:
         if k == 'CLASSIFY':
@@ -632,6 +724,34 @@ def do_op(st, op, ch, root):
     raise ValueError(k)
 
 
+def run_main(argv, root):
+    """tally's console entry point, called in this (simulated) process; returns [tag, exit code, stdout, stderr]."""
+    import io
+    import json
+    from tally import cli
+    out, err = io.StringIO(), io.StringIO()
+    old = sys.argv, sys.stdout, sys.stderr
+    sys.argv = ['tally'] + argv
+    sys.stdout, sys.stderr = out, err
+    code = 0
+    try:
+        try:
+            cli.main()
+        except SystemExit as e:
+            code = e.code if isinstance(e.code, int) else (0 if e.code is None else 1)
+        except Exception as e:
+            code = 'raised %s: %s' % (type(e).__name__, str(e)[:200])
+    finally:
+        sys.argv, sys.stdout, sys.stderr = old
+    rr = os.path.realpath(root)
+    o, e = out.getvalue().replace(rr, '<ROOT>'), err.getvalue().replace(rr, '<ROOT>')
+    try:
+        o = json.loads(o)
+    except ValueError:
+        pass
+    return ['cmd', code, o, e]
+
+
 def context_ops(ops, j):
     """The operations a fresh reference process performs for ops[j]: the most recent load (or
     failed load), the creation of the engine a MATCH refers to, then ops[j] itself."""
@@ -642,6 +762,8 @@ def context_ops(ops, j):
         if ops[i]['op'] == 'LOAD':
             L = i
             break
+    if op['op'] == 'CMD':
+        return [], None          # a command reads everything it needs itself
     if op['op'] != 'LOAD' and L is not None:
         ctx.append(L)
     if op['op'] == 'MATCH':
@@ -728,8 +850,8 @@ def run_history(ops, scratch):
             r_out.append(None)
             continue
         ctx, L = context_ops(ops, j)
-        at = j if op['op'] == 'LOAD' else (L if L is not None else 0)
-        if epoch != at or op['op'] == 'LOAD':
+        at = j if op['op'] in ('LOAD', 'CMD') else (L if L is not None else 0)
+        if epoch != at or op['op'] in ('LOAD', 'CMD'):
             util.write_world(rroot, files_at(ops, at))
             epoch = at
 
@@ -781,6 +903,8 @@ def op_label(op):
         return 'LOAD %s%s' % (op['path'], ' under ' + str(op['fault']) if op.get('fault') else '')
     if k in ('CLASSIFY', 'MATCH'):
         return '%s %s' % (k, TXNS[op['txn']]['description'])
+    if k == 'CMD':
+        return 'tally ' + ' '.join(a.replace('{cfg}', op['budget'] + '/config') for a in op['argv'])
     return k
 
 
@@ -812,10 +936,15 @@ def execute(ops, scratch, seed=None, i=None):
         count['reference_processes'] += 1
         sched = {'property': ID, 'seed': seed, 'run': i, 'ops': ops}
         if util.canon(s['res']) != util.canon(r_out[j]):
+            if op['op'] == 'CMD':
+                before = [o['budget'] for o in ops[:j] if o['op'] == 'CMD']
+                sig = {'op': 'CMD', 'command': op['argv'][0], 'budget': op['budget'], 'previous_budget': before[-1] if before else 'none'}
+            else:
+                sig = dict(zip(('last_load', 'earlier_rules_load'), load_class(ops, j)),
+                           op='classify' if op['op'].startswith('CLASSIFY') else op['op'])
             violations.append({
                 'invariant': 'EQ',
-                'signature': dict(zip(('last_load', 'earlier_rules_load'), load_class(ops, j)),
-                                  op='classify' if op['op'].startswith('CLASSIFY') else op['op']),
+                'signature': sig,
                 'witness': 'op %d/%d `%s`: in the long-lived process -> %s ; in a fresh process after only the most recent load -> %s'
                            % (j + 1, len(ops), op_label(op), util.canon(s['res'])[:300], util.canon(r_out[j])[:300]),
                 'schedule': sched})
@@ -870,6 +999,8 @@ def shrink_candidates(schedule):
 
 def _valid(ops):
     if any(o['op'] == 'FILES' for o in ops) != True and any(str(o.get('path') or '').startswith('g') for o in ops):
+        return False
+    if any(o['op'] == 'CMD' for o in ops) and not any(o['op'] == 'FILES' for o in ops):
         return False
     made = set()
     for op in ops:
